@@ -7,7 +7,8 @@
  * OTHER running thread (slot g_o) stays set (the property's hypothesis: that thread is still executing user code).
  *
  * Heartbeats: shared_ptr<size_t> / weak_ptr<size_t> carry a ghost generation number; only my own generation is
- * tracked (ID.my_gen_alive); it is created by make_shared and dies when its single owner is destroyed/overwritten. */
+ * tracked (ID.my_gen_alive); it is created by make_shared and dies when the last owner held by the library is destroyed/overwritten (owners are
+ * counted: copies and temporaries count); an observer that promoted the weak_ptr is the arbitrary constant ext_owner. */
 #ifndef RG_ID_H
 #define RG_ID_H
 #include <stdlib.h>
@@ -22,7 +23,9 @@ struct id_state {
   size_t my_id;
   size_t other_id;      /* skolem: slot of another thread that is still running */
   uint64_t my_gen;      /* generation of the heartbeat my HeartBeater owns */
-  _Bool my_gen_alive;
+  _Bool my_gen_alive;   /* == (my_owners > 0): the library still holds an owner of my heartbeat */
+  uint64_t my_owners;   /* shared_ptr objects of the library (member, copies, temporaries) that own my generation */
+  _Bool ext_owner;      /* arbitrary constant: an observer promoted GetHeartBeat() (weak_ptr::lock) and keeps that reference */
   uint64_t gen_counter;
   uint64_t nops;        /* atomic operations I performed on the flags */
   uint64_t nclears;
@@ -41,7 +44,7 @@ extern const size_t kMaxThreadNum;
 #pragma CPROVER check disable "conversion"
 #pragma CPROVER check disable "pointer-overflow"
 
-#define ID_INV (kMaxThreadNum >= 1 && ID.other_id < kMaxThreadNum && (!ID.own || (ID.my_id < kMaxThreadNum && ID.my_id != ID.other_id)) && (!ID.my_gen_alive || ID.own))
+#define ID_INV (kMaxThreadNum >= 1 && ID.other_id < kMaxThreadNum && (!ID.own || (ID.my_id < kMaxThreadNum && ID.my_id != ID.other_id)) && (!ID.my_gen_alive || ID.own) && ID.my_gen_alive == (ID.my_owners > 0) && ID.my_owners < 8)
 
 static inline size_t id_index(const atomic_b *a)
 {
@@ -128,14 +131,20 @@ static inline shared_ptr_size make_shared_size(size_t v)
   p.gen = ID.gen_counter;
   ID.my_gen = p.gen;
   ID.my_gen_alive = 1;
+  ID.my_owners = 1;
   return p;
 }
 static inline void shared_ptr_size_release(shared_ptr_size *p)
 {
   if(p->ptr)
   {
-    /* the single owner goes away: the generation dies (weak_ptr::expired() becomes true) */
-    if(p->gen == ID.my_gen) ID.my_gen_alive = 0;
+    /* one owner goes away; with the last owner of the library the generation dies (weak_ptr::expired() becomes true
+     * unless an observer holds a promoted reference) */
+    if(p->gen == ID.my_gen && ID.my_owners > 0)
+    {
+      ID.my_owners--;
+      if(ID.my_owners == 0) ID.my_gen_alive = 0;
+    }
     p->ptr = 0;
   }
 }
@@ -147,6 +156,18 @@ static inline shared_ptr_size *shared_ptr_size_move_assign(shared_ptr_size *dst,
   *dst = *src;
   src->ptr = 0; /* moved-from: destroying it has no effect */
   return dst;
+}
+static inline shared_ptr_size shared_ptr_size_copy(const shared_ptr_size *p)
+{
+  shared_ptr_size q = *p; /* copy construction: one more owner */
+  if(q.ptr && q.gen == ID.my_gen && ID.my_gen_alive) ID.my_owners++;
+  return q;
+}
+static inline shared_ptr_size shared_ptr_size_ctor_move(shared_ptr_size *p)
+{
+  shared_ptr_size q = *p; /* ownership moves into the new object */
+  p->ptr = 0;
+  return q;
 }
 static inline shared_ptr_size shared_ptr_size_exchange_null(shared_ptr_size *p)
 {
@@ -164,7 +185,7 @@ static inline weak_ptr_size weak_ptr_size_from_shared(const shared_ptr_size *p)
 static inline _Bool weak_ptr_size_expired(const weak_ptr_size *w)
 {
   if(!w->bound) return 1;
-  if(w->gen == ID.my_gen) return !ID.my_gen_alive;
+  if(w->gen == ID.my_gen) return !ID.my_gen_alive && !ID.ext_owner;
   return nondet_bool(); /* a generation of another thread: unknown here */
 }
 static inline weak_ptr_size *weak_ptr_size_assign(weak_ptr_size *dst, weak_ptr_size src) { *dst = src; return dst; }
